@@ -753,6 +753,10 @@ def diag_class(A):
     m = min(abs(A[0, 0]), abs(A[1, 1])) / max(1.0, float(np.max(np.abs(A))))
     if A[0, 0] == 0 or A[1, 1] == 0:
         return "zero-diagonal-entry"
+    if A[0, 1] == 0 or A[1, 0] == 0:
+        # triangular / diagonal: judged (the zero entry's own sign is
+        # irrelevant), but under its own key
+        return "zero-offdiagonal-entry"
     if m >= 0.05:
         return "bulk"
     return "near-zero"
@@ -771,10 +775,19 @@ def wl_inverse(run, rng, idx):
         fam = "generic"
     elif kind == 3:
         fam = "triangular-or-diagonal"
+        u, v = float(rng.uniform(-2.5, 2.5)), float(rng.uniform(-2.5, 2.5))
         A = [np.array([[1.0, t], [0, 1]]), np.array([[1.0, 0], [-t, 1]]),
              np.diag([t, 1 / t]), np.diag([-t, -1 / t]),
-             np.array([[t, 1.0], [0, 1 / t]])][(idx // 6) % 5]
-        B = lr.rand_sl2(rng, (), 20.0)
+             np.array([[t, 1.0], [0, 1 / t]]),
+             # generic (not 'nice') triangular matrices: the zero corner of the
+             # image carries rounding noise of either sign (seeded change C17-1)
+             np.array([[t, u], [0, 1 / t]]), np.array([[-t, 0], [u, -1 / t]]),
+             np.array([[1 / t, u], [0, t]])][(idx // 6) % 8]
+        if (idx // 6) % 8 >= 5:
+            # a second triangular factor of the same kind: AB is triangular too
+            B = np.array([[1 / t, v], [0, t]]) if A[1, 0] == 0 else np.array([[t, 0], [v, 1 / t]])
+        else:
+            B = lr.rand_sl2(rng, (), 20.0)
     elif kind == 4:
         fam = "integer"
         A = lr.rand_sl2z(rng).astype(float)
@@ -823,18 +836,25 @@ def wl_inverse(run, rng, idx):
                   "sl2_to_so21(o_to_pgl(S)) != S", case)
         run.note_class("inverse", fam, cls, nm)
     # homomorphism up to sign
-    if all(diag_class(X) == "bulk" for X in (A, B, A @ B)):
+    classes = [diag_class(X) for X in (A, B, A @ B)]
+    if all(c in ("bulk", "zero-offdiagonal-entry") for c in classes):
+        # (a triangular AB is judged under its own key: the sign of the
+        # recovered diagonal entry is read off a product with the zero entry's
+        # rounding noise)
+        sfx = "" if all(c == "bulk" for c in classes) else "/zero-offdiagonal-entry"
+        # a zero entry is recovered as sqrt(rounding noise) ~ 1e-8: square-root rule
+        tolp = 1e-7 if not sfx else 3e-6
         SA, SB = lie.sl2_to_so21(A), lie.sl2_to_so21(B)
-        case = {"A": A, "B": B, "family": fam}
+        case = {"A": A, "B": B, "family": fam, "classes": classes}
         run.current_case = case
         l = lr.as_numeric(lie.o_to_pgl(SA @ SB))
         r = lr.as_numeric(lie.o_to_pgl(SA)) @ lr.as_numeric(lie.o_to_pgl(SB))
-        mon.judge(lr.eq_up_to_sign(l, r), 1e-7, "inverse/o_to_pgl/not-multiplicative-up-to-sign",
+        mon.judge(lr.eq_up_to_sign(l, r), tolp, "inverse/o_to_pgl/product-of-images/not-multiplicative-up-to-sign" + sfx,
                   "o_to_pgl(S_A S_B) != +- o_to_pgl(S_A) o_to_pgl(S_B)", case)
         # S_A S_B is an element of SO(2,1) that was not itself computed as an image
-        mon.judge(lr.eq_up_to_sign(l, A @ B), 1e-7, "inverse/o_to_pgl/not-inverse",
+        mon.judge(lr.eq_up_to_sign(l, A @ B), tolp, "inverse/o_to_pgl/product-of-images/not-inverse" + sfx,
                   "o_to_pgl(sl2_to_so21(A) sl2_to_so21(B)) is not +-AB", case)
-        mon.judge(abs(abs(float(np.linalg.det(l))) - 1.0), 1e-7, "inverse/o_to_pgl/det",
+        mon.judge(abs(abs(float(np.linalg.det(l))) - 1.0), tolp, "inverse/o_to_pgl/det",
                   "o_to_pgl(S) does not have determinant +-1", case)
         run.note_class("inverse-product", fam)
     if idx == 0:
